@@ -47,6 +47,9 @@ CHECKS = {
  "C04": ("exploration", "runtime monitor comparing observed metadata (handler context, Header(), Trailer(), client stats InHeader, wire tap for unary trailers) with an independent normaliser over seeded metadata sets and all ways of setting them",
          "Seeded metadata sets (mixed-case keys over the gRPC alphabet, 1..4 values, arbitrary bytes under -bin incl. NUL/0xFF/empty) attached via outgoing context and client interceptors, and by handlers via repeated SetHeader, SendHeader, header-with-first-message, header-with-trailer, repeated SetTrailer and grpc.SetHeader/SetTrailer, for all four RPC kinds with succeeding and failing handlers; every key, per-key order and byte must match.",
          "Key sets never contain two keys equal up to case; unary response trailers are read from the wire because the client API cannot expose them.", "DESIGN.md 2/C04"),
+ "C20": ("exploration", "recording interceptors (enter/exit trace + visible edits of context metadata, request, reply, error) and recording stats handlers (fresh token per TagRPC) around real RPCs of every kind and outcome; trace/count oracle",
+         "Server chains of length 1..6 (chained and single options), an optional client interceptor, 1..3 stats handlers per side, 4 RPC kinds x 7 outcomes incl. cancel, manual deadline, transport failure, failed open and a call on an already failed connection: exactly-once and nesting order of interceptors, propagation of each edit to the handler and the caller, exactly one Begin (first) and one End per RPC and handler with End.Error nil iff success on that side, every event tagged with the TagRPC context, one ConnBegin/ConnEnd per served connection.",
+         "goat has a single client interceptor slot, so client chains >1 are not goat code; one RPC per case.", "DESIGN.md 2/C20"),
 }
 NOT_YET = "check not built yet in this round (runtime-monitoring design in DESIGN.md section 2); will be claimed once its monitor exists"
 
